@@ -210,6 +210,19 @@ claim('C11',
       'DESIGN.md section 4 C11')
 
 
+claim('C16',
+      'Validate.tla states the decision table of validate_h5ad (reject / copy needed / rounding), the identifier '
+      'mapping and the choice of the integer type on symbolic magnitudes 2^k + d/2; TLC checks that rounding moves '
+      'a value by at most one half to an integer, that the chosen type holds the rounded range and emits every '
+      'scenario (ranges at every type boundary, identifier mixes x layer x rounding x integrality, rejected '
+      'inputs), each materialised as a real h5ad in three encodings and compared field by field with the '
+      'expectation; input bytes are digested before and after.',
+      'Trusted: TLC, anndata writer/reader. Values beyond the extremes are checked by the projection (|out-in| <= '
+      '1/2, integral). A file in which no gene can be mapped may be refused.',
+      'TLA+ decision model on symbolic magnitudes; TLC-emitted scenarios replayed into validate_h5ad',
+      'DESIGN.md section 4 C16')
+
+
 def build():
     props = [json.loads(l) for l in open(ROOT / 'properties.jsonl')]
     checks = []
